@@ -38,6 +38,12 @@ CHECKS['C16'] = dict(engine='Timelock', tech='TLA+ spec (Timelock.tla = TapeVM i
 CHECKS['C19'] = dict(engine='Registry', tech='TLA+ spec (Registry.tla history machine) with TLC: every registry state x every call (VIEW hides the history) + replay of history+call in a fresh interpreter + TLC validation of recorded random API histories',
                 text='The registries are specified as sets with observation calls (run / compile / assemble) whose results are functions of arguments and registry only; TLC explores every reachable registry state x last observation x every call and prints each transition with a shortest history, which is replayed against the real add/remove/reset/run/compile API in a fresh interpreter state (registry snapshot, plugins and contracts actually used by a run, compile output, caller dictionaries); random 40-call histories recorded from the API are checked call by call by TLC.',
                 ref='5 C19', note=PURE_NOTE)
+CHECKS['C11'] = dict(engine='Asm', tech='TLA+ spec (Asm.tla: abstract programs, documented encoding Enc, token renderings, Encodable) with TLC over structural and operand-boundary families + replay of every rendering in 6 lexical variants through compile_script + TLC judging of compiled random abstract programs',
+                text='TLC enumerates 84k abstract programs covering every block construct, terminator style, hoisting, macros, comptime blocks, variables and comments, plus every operand kind at its boundaries, checks RoundTrip / VMAgrees / PushMinimal and prints tokens and documented bytes; each is rendered in 6 lexical variants and compiled by the real compiler (accepted => identical bytes, unencodable => rejected); random programs over all ops are compiled and judged by TLC (Enc(program) = bytes).',
+                ref='5 C11', note=PURE_NOTE)
+CHECKS['C12'] = dict(engine='Asm', tech='TLA+ spec (Asm.tla disassembler: InstrLen / Decodes / Canon / Listing) with TLC over all byte strings of length <= 2 and decoder-class families + replay through decompile_script under a watchdog (termination, listing line by line, recompile) + TLC judging of random / mutated strings, builder outputs and vectors',
+                text='The disassembler is specified as a decoder with a progress invariant (every decoded length >= 1 and inside the string) and a canonical program whose rendering is the listing; TLC checks it on every byte string of length <= 2 and on decoder-class families, and every string is fed to the real decompile_script under a watchdog (must terminate, listing or error as specified, identical lines, compile(listing) = bytes); random and mutated strings up to 70 KiB, all builder outputs and repository vectors are recorded and judged by TLC.',
+                ref='5 C12', note=PURE_NOTE)
 NOT_YET = {}
 
 props = [json.loads(l) for l in open(os.path.join(ROOT, 'properties.jsonl'))]
@@ -71,6 +77,7 @@ manifest = {
         'add_only': True,
     },
     'engines': [
+        {'name': 'Asm', 'path': '/verif/spec/Asm.tla', 'serves_properties': ['C11', 'C12', 'C20'], 'kind_free_text': 'assembler / disassembler: abstract programs, documented encoding, renderings, decoder, listing; AsmMC.tla = families and trace judging'},
         {'name': 'Registry', 'path': '/verif/spec/Registry.tla', 'serves_properties': ['C19'], 'kind_free_text': 'extension registries as a history machine'},
         {'name': 'Codec', 'path': '/verif/spec/Codec.tla', 'serves_properties': ['C10'], 'kind_free_text': 'integer / float32 encodings on byte sequences (BigInt.tla limb arithmetic)'},
         {'name': 'Timelock', 'path': '/verif/spec/Timelock.tla', 'serves_properties': ['C16'], 'kind_free_text': 'time windows: TapeVM run inside TLC vs declarative predicates'},
